@@ -8,6 +8,7 @@ HARNESS = {
     "fd_encrypted_small": dict(kind="leaf", proved=False, fns=["parse_tls_encrypted"], bound="input <= 53 bytes"),
     "fd_raw_record_full": dict(kind="fd", proved=True, fns=["parse_tls_raw_record"], bound="complete up to the record cap: input <= 5+16640+16 bytes (<=16 trailing bytes)"),
     "fd_encrypted_full": dict(kind="fd", proved=True, fns=["parse_tls_encrypted"], bound="complete up to the record cap: input <= 5+16640+16 bytes"),
+    "fd_defrag_default": dict(kind="fd", proved=True, fns=["TlsRecordsParser::default", "TlsRecordsParser::reset", "TlsRecordsParser::defrag_in_progress"], bound="no input: discharges the assume_specification on derive(Default) used by the Verus unit"),
 }
 for _k in range(5):
     HARNESS["fd_states_cells_%d" % _k] = dict(kind="fd", proved=True, fns=["tls_state_transition", "tls_state_transition_handshake"],
@@ -31,5 +32,16 @@ PROPS = {
         paired={"states": ["fd_states_cells_%d" % k for k in range(5)]},
         explanation="tls_state_transition and tls_state_transition_handshake are sliced out of /repo/src/tls_states.rs together with every message type and proved (Verus) equal to a transition table written from the property, for all states, directions and message contents; history clauses follow from recursive lemmas over the table",
         trusted=["the transition table in /verif/verus/units/states.py (oracle transcribed by hand from the property statement; sanity lemmas about it are proved)"],
+    ),
+    "C07": dict(
+        level="proof",
+        level_text="Unbounded deductive proof (Verus) on the real impl TlsRecordsParser (sliced from /repo/src/tls_records_parser.rs each run): every method satisfies a total step contract written from the property (first-fragment path, CCS/alert never buffered, Tag / TooLarge / NonEmpty refusals with the frame 'state unchanged', append-and-reparse under the pseudo header, clear on completion), with NO precondition on the object state, the one-shot payload parser left as an uninterpreted function. History clauses (accumulate-then-parse for any k-way split, freshness after reset/completion, refusals do not disturb a run, buffer < 10 MiB) are recursive/derived lemmas over that step contract, so they hold for every finite call sequence.",
+        level_note="Trusted: Verus+Z3; vstd Vec specs (clear, extend_from_slice, len); assume_specification for derive(Default) (discharged on the real type by Kani harness fd_defrag_default); parse_tls_record_with_header as external_body with an uninterpreted spec (= 'a deterministic function of payload and header'); rewrites R0, R2 (guard on ErrorKind turned into the equivalent pattern), R3, R5, R6, one #[verifier::truncate] attribute on the `as u16` cast (value of the truncating cast left abstract), one spliced proof hint. No Kani pairing of the Ok paths: CBMC does not finish on Vec<TlsMessage> (measured: 400 s timeout with 1-byte fragments); a normal-build history runner in /verif/replay is the witness finder for failed obligations.",
+        technique="contract-based deductive verification: Verus step contract + history lemmas on mechanically extracted code",
+        verus=["defrag"],
+        kani=[dict(quick=["fd_defrag_default"], timeout=120)],
+        witness_search={"defrag": {"defrag_search": True, "depth": 3}},
+        explanation="see level_text",
+        trusted=["spec_prwh: the one-shot payload parser is abstract in this unit; its own contract is C03's business"],
     ),
 }
